@@ -46,6 +46,10 @@ CLAIMED = {
          "Props/C09.v: C09_resolution_aligned, C09_mask, C09_partition_masked, C09_partition_finest, C09_limit, C09_once, for every mix of box sizes and alignments. pestle.volume_integral (API and CLI) is run on generated 3D plotfiles (incl. meshes whose smallest box edge does not divide every corner), integer payloads and dyadic cell volumes make every float operation exact: per-box worker results and the total are compared bit for bit with the extracted model and an independent occupancy oracle; decimal geometries within 1e-12.",
          "floating-point rounding of np.sum is outside the theorems (exact stream); the read prefix of the workers is the C01 single-field read; three defects repaired by fix: commits (limit handling, occupancy resolution), see KNOWN_FINDINGS.txt.",
          "DESIGN.md section 3 C09"),
+ 'C19': ("Coq proof (box matching on the half-cell lattice: CASE 1 with the covering box and integral local index at every interior cell centre; side conditions from disjoint / nested boxes; refusal outside) + correspondence of the (array, coordinates) handed to map_coordinates",
+         "Props/C19.v: C19_case1, C19_same_level, C19_finer_level, C19_outside_refused. PlotfileCooker[field](x,y,z) is queried at interior cell centres of every level (stored value within 1e-9), other lattice points and outside points on generated 3D plotfiles with shifted origins and anisotropic dyadic cells, for name / int / list / slice selections; a spy on map_coordinates checks that the box read and the local index are the model's.",
+         "scipy map_coordinates (cubic spline) is an oracle: node value at integral coordinates is trusted and checked numerically; float comparisons are modelled on the integer half-cell lattice (exact on dyadic geometry); CASE 2 (between boxes) is outside the model; two defects repaired by fix: commits (origin ignored, slice selections).",
+         "DESIGN.md section 3 C19"),
 }
 PENDING_REASON = "check not built yet in this round (model and theorems planned in DESIGN.md section 3); not claimed until its check runs"
 
